@@ -199,3 +199,12 @@ pub mod single {
         repeated_none: 2, 0; repeated_count: 2, 1; repeated_millis: 2, 2; repeated_custom: 2, 3; repeated_custom_quote: 2, 4;
     }
 }
+
+// The custom-unit harnesses of the family above are also part of C02: a unit name containing a quote or a backslash
+// must reach the "Metrics" directive through the JSON escaper, otherwise the record is not valid JSON.
+// @check C02 quick filter=_custom_quote timeout=1200 mem=14
+// @encodes emf::ValueWriter::write_metric (declaration: "Name", "Unit" via json_string, "StorageResolution"), Unit::name
+// @bounds the three c03::single::*_custom_quote harnesses: Unit::Custom("\"\\") with one observation of each kind, flags symbolic
+// @oracle the declaration text equals the expected literal with the unit escaped as \" \\ (so the directive stays valid JSON)
+// @stubs tracing x4, Instant::now, alloc::fmt::format, String::push/push_str/shrink_to, Vec::extend_from_slice, itoa::Buffer::format (recording), dtoa::Buffer::format_finite (recording)
+const _REGISTERED_FOR_C02: () = ();
